@@ -8,7 +8,7 @@ HERE = Path(__file__).resolve().parent.parent
 CHECKS = {
     "C01": dict(
         technique="exhaustive small-scope enumeration + Hypothesis random search against a set-comprehension reference model of the rule semantics",
-        text="Every import relation over a fixed 5-module tree x every rule instantiation whose subjects are unrelated to its objects, and bounded relations x every rule whose subjects are the same as / above / below its objects ('sub modules of X should not import X'), are compared with an independent reference verdict (thorough: three trees, root targets, bounded edge subsets on 6/7-module trees), followed by seeded Hypothesis search over larger random trees; a slice of both tiers applies every rule object to a second architecture first (re-use must not matter) and gives a named side as an equivalent anchored regex. Bounded exploration, not proof: complete only up to the stated tree/batch sizes.",
+        text="Every import relation over a fixed 5-module tree x every rule instantiation whose subjects are unrelated to its objects, and bounded relations x every rule whose subjects are the same as / above / below its objects ('sub modules of X should not import X'), are compared with an independent reference verdict (thorough: three trees, root targets, bounded edge subsets on 6/7-module trees), followed by seeded Hypothesis search over larger random trees; a slice of both tiers applies every rule object to a second architecture first (re-use must not matter) and gives a named side as an equivalent anchored regex; names listed twice, one- and two-module architectures and imports from a package node to a module two or more levels below it are part of the space. Bounded exploration, not proof: complete only up to the stated tree/batch sizes.",
         note="Trusts the reference model in pbt/models.py (reading of LANGUAGE_DEFINTION.md 'Semantics' and the property text) and the direct graph construction NetworkxGraph(modules, [AbsoluteImport]) also used by the repository's tests.",
         ref="5 C01"),
     "C03": dict(
@@ -18,7 +18,7 @@ CHECKS = {
         ref="5 C03"),
     "C02": dict(
         technique="grammar-enumerated AST slot paths x import forms (exhaustive to depth 2/3) + Hypothesis project trees, differential against a name-resolution reference model; plus a coverage-guided arm (atheris/libFuzzer driving the same strategy and oracle through Hypothesis fuzz_one_input, pytestarch instrumented)",
-        text="Every statement-list position of the running interpreter's grammar, nested to depth 2 (thorough 3), times every import form is rendered into compiling source files, scanned, and the resulting import edges compared in both directions with the targets the statements name; some files are stored with a byte order mark or an encoding declaration; the paths that do not need match / except* are also scanned by a child interpreter whose ast module lacks the classes of newer Python versions; relative imports that leave the scanned root yield no edge and do not disturb the other statements.",
+        text="Every statement-list position of the running interpreter's grammar, nested to depth 2 (thorough 3), times every import form is rendered into compiling source files, scanned, and the resulting import edges compared in both directions with the targets the statements name; some files are stored with a byte order mark or an encoding declaration; the paths that do not need match / except* are also scanned by a child interpreter whose ast module lacks the classes of newer Python versions; relative imports that leave the scanned root yield no edge and do not disturb the other statements; relative from-imports with a package part list several names (sub module first / two sub modules).",
         note="Trusts ast.unparse/compile of the running CPython and the target-resolution rules written from the property text; imports of own ancestors are outside the claim.",
         ref="5 C02"),
     "C04": dict(
@@ -48,12 +48,12 @@ CHECKS = {
         ref="5 C08"),
     "C09": dict(
         technique="metamorphic: scan(level_limit=k) vs quotient of scan(None), and rule verdicts on both (Hypothesis trees + fixed project exhaustively over k/module_path)",
-        text="The flattened architecture must equal the computed quotient graph (k from 0 to beyond the depth, absolute and relative imports, imports of names that are not modules, externals) and preserve the verdict of every sampled rule over names above the limit, also for a rule object applied to both.",
+        text="The flattened architecture must equal the computed quotient graph (k from 0 to beyond the depth, absolute and relative imports, imports of names that are not modules, externals, file / external exclusion patterns given to both scans, directory and file names outside ASCII) and preserve the verdict of every sampled rule over names above the limit, also for a rule object applied to both.",
         note="Relates two scans of the same tree; quotient computed by pbt/models.quotient.",
         ref="5 C09"),
     "C11": dict(
         technique="metamorphic: compact (regex / partial name / batch) rule vs its expansion on the same architecture; exhaustive over a small tree + Hypothesis",
-        text="Every compact specification (one expression / partial name or a list of them) is evaluated next to its expansion computed by the harness; verdicts must be equal, empty expansions must raise; the batch law is enumerated for all subject/object sets of 1-2 modules (overlapping and related sets included) on a small tree; rule objects are re-used across architectures in which a regex matches other modules.",
+        text="Every compact specification (one expression / partial name or a list of them) is evaluated next to its expansion computed by the harness; verdicts must be equal, empty expansions must raise; the batch law is enumerated for all subject/object sets of 1-2 modules (overlapping and related sets included) on a small tree; rule objects are re-used across architectures in which a regex matches other modules; expressions that spell a module name with unescaped dots are enumerated on a tree where a sibling's name differs from a nested name exactly at the dot.",
         note="Expansion uses re.match over the module list / the harness's own glob semantics.",
         ref="5 C11"),
     "C12": dict(
@@ -63,7 +63,7 @@ CHECKS = {
         ref="5 C12"),
     "C13": dict(
         technique="exhaustive call-history enumeration against specification automata (Rule / LayerRule / DiagramRule), chain mutations, Hypothesis absent-name cases, exhaustive entry-point option matrix",
-        text="Every history classified must-error has to raise a non-assertion error and never return a verdict; absent names are tried in rules, regex batches, layers (also a layer that never received modules, named next to defined ones) and diagrams, also with a rule object that was first applied to an architecture in which the name exists; module_path is also spelt with '..'.",
+        text="Every history classified must-error has to raise a non-assertion error and never return a verdict; absent names are tried in rules, regex batches, layers (also a layer that never received modules, named next to defined ones) and diagrams, also with a rule object that was first applied to an architecture in which the name exists; module_path is also spelt with '..'; the option matrix of the entry points is run through the path and through the module-object entry point.",
         note="Automata written from the property text; histories with a repeated layers_that() are not classified.",
         ref="5 C13"),
     "C16": dict(
